@@ -32,11 +32,12 @@ const (
 	PEscStr
 	PWidth6Str // strings of 6 bytes: same encoded width (1+2+6) as a number (1+8)
 	PMixIntFloat
+	PMixNumNumText // JSON numbers and numeric text ("5000", "12", "3.50") in one column
 	numProfiles
 )
 
 var profileNames = [...]string{"int", "float", "bool", "lowstr", "highstr", "numtext", "mix_num_str", "mix_num_bool",
-	"nullonly", "intbig", "escstr", "width6str", "mix_int_float"}
+	"nullonly", "intbig", "escstr", "width6str", "mix_int_float", "mix_num_numtext"}
 
 func (p Profile) String() string { return profileNames[p] }
 
@@ -190,6 +191,18 @@ func genValue(t *rapid.T, p Profile) model.Val {
 			return genInt(t)
 		}
 		return genFloat(t)
+	case PMixNumNumText:
+		switch rapid.IntRange(0, 3).Draw(t, "mixKind") {
+		case 0:
+			return model.Int(int64(rapid.IntRange(-5, 40).Draw(t, "nInt")))
+		case 1:
+			return model.Float(float64(rapid.IntRange(-40, 400).Draw(t, "nQ")) / 4)
+		case 2:
+			// numeric text well outside the range of the native numbers
+			return model.Str(strconv.Itoa(rapid.IntRange(-9000, 9000).Draw(t, "txtInt")))
+		default:
+			return model.Str(rapid.SampledFrom([]string{"5000", "12", "3.50", "-7", "0", "1e3", "250.25", "007"}).Draw(t, "txtNum"))
+		}
 	case PNullOnly:
 		return model.Null()
 	case PEscStr:
